@@ -20,6 +20,7 @@ macro_rules! props {
 
 props! {
     "C07" => props::c07::C07,
+    "C08" => props::c08::C08,
     "C09" => props::c09::C09,
     "C10" => props::c10::C10,
     "C11" => props::c11::C11,
